@@ -265,7 +265,8 @@ impl<Y: Sys> JobT for Job<Y> {
         let mut unlisted = 0usize;
         let mut not_minimised = 0u64;
         for f in res.sink.failures.iter() {
-            if unlisted >= MAX_UNLISTED_CORES {
+            // (VERIF_LEARN=1: minimise everything — used when the known-findings list is regenerated)
+            if unlisted >= MAX_UNLISTED_CORES && std::env::var("VERIF_LEARN").is_err() {
                 // the verdict (violation) is established; do not spend minutes minimising thousands of further failures
                 not_minimised += 1;
                 continue;
@@ -315,8 +316,10 @@ impl<Y: Sys> JobT for Job<Y> {
                     }
                 }
                 let mut placed = false;
+                let seed: usize = std::env::var("VERIF_SEED").ok().and_then(|s| s.parse().ok()).unwrap_or(0);
                 for off in 0..cands.len() {
-                    let (a, vis, c) = cands[(d * 7 + 3 + off * 5) % cands.len()];
+                    // a deterministic, seed-dependent walk that varies actor, visibility and command with depth
+                    let (a, vis, c) = cands[((d + 1 + seed).wrapping_mul(2654435761) / 7 + (d + seed) * (cmds.len() + 1) + off * 5) % cands.len()];
                     if let Some(op) = Y::gen(&h.recs, &h.table[vis as usize][0].s, self.cfg.actor_of(a), c, d) {
                         h.extend(Rec { author: a, cmd: c, vis, variant: 0, op }, &self.cfg, &mut st);
                         placed = true;
